@@ -75,12 +75,13 @@ Fixpoint nodupb {A} (eqb : A -> A -> bool) (l : list A) : bool :=
   | x :: xs => negb (existsb (eqb x) xs) && nodupb eqb xs
   end.
 
-(* stable insertion sort, `lt` strict: an element is inserted before the first strictly larger
-   one, which is what Python's stable `sorted` does *)
+(* stable insertion sort, `lt` strict: folding from the right, an element is inserted before the
+   first element that is not strictly smaller, so equal elements keep their original order,
+   which is what Python's stable `sorted` (using only `<`) does *)
 Fixpoint insert_by {A} (lt : A -> A -> bool) (x : A) (l : list A) : list A :=
   match l with
   | [] => [x]
-  | y :: ys => if lt x y then x :: l else y :: insert_by lt x ys
+  | y :: ys => if lt y x then y :: insert_by lt x ys else x :: l
   end.
 Definition sort_by {A} (lt : A -> A -> bool) (l : list A) : list A :=
   fold_right (insert_by lt) [] l.
